@@ -3,6 +3,7 @@
 spec: basin/BasinGraphSpec (reachability over usable basin definitions).
 """
 import shutil
+import json
 import signal
 
 import numpy as np
@@ -33,6 +34,8 @@ def _alarm(*a):
 def build(case, d, url_of):
     from dclab.rtdc_dataset import RTDCWriter
     k = len(case["rid"])
+    import zlib
+    relstyle = zlib.crc32(json.dumps(case, sort_keys=True).encode()) % 2 == 1
     paths = {i: d / ("n%d.rtdc" % i) for i in range(1, k + 1)}
     for u in range(1, k + 1):
         meta = {s: dict(v) for s, v in gen.META.items()
@@ -74,8 +77,17 @@ def build(case, d, url_of):
                         kw["basin_map"] = np.arange(N, dtype=np.uint64)
                     if kind == "fileempty":
                         kw["basin_feats"] = []
+                    # how the location is given does not matter: absolute,
+                    # relative to the referring file (the working directory
+                    # is elsewhere), or a dangling absolute location
+                    # followed by a relative one (every second graph)
+                    locs = [str(paths[v])]
+                    if relstyle:
+                        locs = [paths[v].name] if (u + v) % 2 else [
+                            str(d / "moved_away" / paths[v].name),
+                            paths[v].name]
                     hw.store_basin(basin_type="file", basin_format="hdf5",
-                                   basin_locs=[str(paths[v])], **kw)
+                                   basin_locs=locs, **kw)
     return paths
 
 
